@@ -129,8 +129,11 @@ def run(ctx):
     eq_spec(ctx, "C01.gravity.eq_spec", [p_, a_],
             lambda v: py._numba_integrate.gravity(deg(v["phi"]), v["alt"]),
             lambda v: wgs84.normal_gravity(v["phi"], v["alt"]), {p_: (-1.5, 1.5), a_: (-500, 2e4)}, py=py)
-    from props import C17
+    from props import C17, C15
     C17._rotvec(ctx, py)
+    # the dt the kernel is given is the stamp difference itself (C15's schema contract of compute_increments_from_imu, which
+    # the convergence argument needs: an interval that is off by a fixed relative amount is an error that does not vanish)
+    ctx.guard(C15._schema, ctx, py)
 
     # ---- glue: Integrator passes the right things to the kernel and returns its rows ----------
     ctx.guard(_glue, ctx, py)
